@@ -147,14 +147,14 @@ pub fn assignment_no_type(input: Node, is_const: bool, is_modify: bool) -> (r: R
 }} // verus!
 fn main() {{}}
 """
-    obls = [Obl(f"C10.ident.{n}", ["C10"], fn=f"Ident::{n}", desc=f"Ident::{n}: name / const flag / type as the const checks rely on") for n in IDENT_FNS] + [
+    obls = [Obl(f"C10.ident.{n}", ["C10", "C11"], fn=f"Ident::{n}", desc=f"Ident::{n}: name / const flag / type as the const checks rely on") for n in IDENT_FNS] + [
         Obl("C10.assignment_type", ["C10", "C03", "C07"], fn="assignment_type", desc="Parser::assignment_type: previous declaration = lookup over all blocks of the function (or the captured scopes for modify); const marks read-only; modify marks captured; incompatible typed initializer rejected"),
         Obl("C10.assignment_no_type", ["C10", "C07"], fn="assignment_no_type", desc="Parser::assignment_no_type: same lookup / flag contract for untyped assignments"),
     ]
     return gen, obls, log
 
 
-UNITS = [VUnit("c10_assign", ["C10", "C03", "C07"], "Ident const flag propagation; assignment declaration side", build)]
+UNITS = [VUnit("c10_assign", ["C10", "C03", "C07", "C11"], "Ident const flag propagation; assignment declaration side", build)]
 UNITS[0].assumes = ["pest API, scope lookups and sub-parsers are abstract (arbitrary results): the contracts hold for every parse tree and context",
                     "child counts of the nodes are the grammar's productions (preconditions, not proved against pest)",
                     "the const test itself is in Parser::assignment (separate obligation); diagnostics' text is dropped"]
@@ -286,11 +286,11 @@ fn main() {{}}
 """
     return gen, [Obl("C10.op.is_op_assign", ["C10", "C03"], fn="Op::is_op_assign", desc="Op::is_op_assign: true exactly for += -= *= /= %= (the operators whose const test Expr::for_type runs)"),
                  Obl("C10.root_ident", ["C10"], fn="Expr::root_ident", desc="Expr::root_ident: the variable at the root of an index / field chain"),
-                 Obl("C10.for_type.binop", ["C10", "C03", "C16", "C02"], fn="for_type_binop",
+                 Obl("C10.for_type.binop", ["C10", "C03", "C16", "C02", "C11"], fn="for_type_binop",
                      desc="Expr::for_type (BinOp): `+= -= *= /= %=` and `?=` on a const name are rejected; an accepted operation has an entry in the operator table")], log
 
 
-UNITS.append(VUnit("c10_for_type", ["C10", "C03", "C16", "C02"], "const test of the writing operators; operator check", build_for_type))
+UNITS.append(VUnit("c10_for_type", ["C10", "C03", "C16", "C02", "C11"], "const test of the writing operators; operator check", build_for_type))
 
 
 # =====================================================================================================================
